@@ -38,9 +38,22 @@
   the run-time keys, so a user-supplied value keeps winning at every role at every
   moment. Tied by differential runs on a real Environment driven through
   TryTransition.
+
+  Fourth part (Model/VarsTree `Node.site`, `LoadCfg`, `load`): INCLUDE ROLES. An include role
+  becomes the root of the loaded sub-workflow; what was written at the include site — its own
+  defaults / vars and, when the include role is an iterator's template, the iteration variable —
+  is one more level right above it. `Gen.C14Load` (go/ast of the four ProcessTemplates) says where
+  each kind of role publishes its iterator Locals; `C14_load_is_code` identifies the model's
+  `codeLoad` with it, `C14_load_is_expand` shows that the step-by-step load IS the reading of the
+  template the Spec uses (`expand`), and the theorems say: the included root's definitions are
+  nearer than the site's, both nearer than everything above; inside every instance of an iterated
+  include role the iteration variable is the instance's own value unless something nearer defines
+  it. Tied by differential runs on templates with (iterated, nested) include roles loaded through
+  the real ProcessTemplates with an in-memory workflow repository.
 -/
 import ControlModel.Gen.VarsFacts
 import ControlModel.Gen.C14EnvWrites
+import ControlModel.Gen.C14LoadFacts
 import ControlModel.Proofs.Vars
 import ControlModel.Proofs.VarsTree
 import ControlModel.Proofs.VarsEnv
@@ -508,6 +521,156 @@ theorem C14_global_write_reaches_all (a : Nat) (x : Addr) (op : Op) (rest : Addr
     (Write.mk (a :: x) true op).target = [a] ∧ isAnc (Write.mk (a :: x) true op).target (a :: rest) = true := by
   simp [Write.target, isAnc]
 
+/-! ## include roles and the load
+
+  A node with `site := true` is the SITE of an include role (the maps written next to `include:`); its
+  single child is the root of the included workflow = the include role after the load. `chainAt` /
+  `pathOf` pass through the site as through any level, `preorder` (the roles) skips it. -/
+
+/-- The model's placement of the loop that publishes iterator Locals as vars IS the code's: in every
+    kind of role it is a statement of ProcessTemplates; the aggregator runs it before descending; the
+    include role runs it BEFORE its composed aggregatorRole is replaced by the loaded root, loads the
+    sub-workflow under itself, restores nothing but parent and name, and ends in the loaded root's
+    own ProcessTemplates. Moving or dropping a loop, restoring more of the site: this breaks. -/
+theorem C14_load_is_code :
+    Gen.C14Load.localsPublished = [("aggregatorRole", codeLoad.plainPublishes), ("taskRole", codeLoad.plainPublishes),
+      ("callRole", codeLoad.plainPublishes), ("includeRole", codeLoad.sitePublishesBeforeSwap)] ∧
+    Gen.C14Load.aggregatorPublishesBeforeChildren = codeLoad.plainPublishes ∧
+    Gen.C14Load.includePublishesBeforeSwap = codeLoad.sitePublishesBeforeSwap ∧
+    Gen.C14Load.includeRestoredAfterSwap = ["parent", "Name"] ∧
+    Gen.C14Load.includeLoadsUnderItself = true ∧ Gen.C14Load.includeEndsInLoadedRoot = true := by
+  decide
+
+/-- The load as the code performs it (Locals, published where `codeLoad` says) yields, for EVERY
+    template — any nesting of roles, iterators, include roles, iterated include roles — the tree the
+    rule reads off the template (`expand`, what `Spec.loadedOk` judges against). -/
+theorem C14_load_is_expand (t : TForest) : load codeLoad t = expand t :=
+  load_code t
+
+/-- … and wherever the loop of the include role stands: a template in which no iterator has an
+    include role as its template loads to the same tree (plain include roles, iterators over
+    aggregator / task / call roles are indifferent to it). -/
+theorem C14_load_indifferent_without_iterated_include (cfg : LoadCfg) (hp : cfg.plainPublishes = true) (t : TForest)
+    (h : noIteratedSite t = true) : load cfg t = expand t :=
+  load_noIteratedSite cfg hp t h
+
+/-- An include site is a LEVEL, not a role: the roles of the tree are the roles below it (first of
+    all the included root, its only child here) and after it; every other node is a role. -/
+theorem C14_include_site_is_no_role (n : Node) (kids next : Forest) (idx : Nat) (pre : Addr) :
+    preorder (.role n kids next) idx pre =
+      (if n.site then [] else [pre ++ [idx]]) ++ (preorder kids 0 (pre ++ [idx]) ++ preorder next (idx + 1) pre) :=
+  rfl
+
+/-- PRECEDENCE AROUND AN INCLUDE ROLE, per kind of map: for a role whose chain passes through an include
+    role (site `s`, included root `r`; `pre` above, `below` below — `below = []` is the include role
+    itself) the sources rank: the roles below, then the included root's own map, then the site's, then
+    everything above the include role, the environment last. -/
+theorem C14_include_root_over_site (pre below : List Node) (s r : Node) (env : Path) (k : String) :
+    get (dChain (pathOf (pre ++ s :: r :: below) env)) k =
+        orElse (get (dChain (pathOf below [])) k) (orElse (lookup r.own.defaults k)
+          (orElse (lookup s.own.defaults k) (get (dChain (pathOf pre env)) k))) ∧
+    get (vChain (pathOf (pre ++ s :: r :: below) env)) k =
+        orElse (get (vChain (pathOf below [])) k) (orElse (lookup r.own.vars k)
+          (orElse (lookup s.own.vars k) (get (vChain (pathOf pre env)) k))) ∧
+    get (uChain (pathOf (pre ++ s :: r :: below) env)) k =
+        orElse (get (uChain (pathOf below [])) k) (orElse (lookup r.own.userVars k)
+          (orElse (lookup s.own.userVars k) (get (uChain (pathOf pre env)) k))) := by
+  simp only [pathOf, dChain, vChain, uChain, List.reverse_append, List.reverse_cons, List.map_append, List.map_cons,
+    List.append_assoc, List.cons_append, List.nil_append, List.append_nil, get_append, get_cons, and_self]
+
+/-- What any role at or below an include role resolves: all user vars first (nearest first), then the
+    vars — below, included root, site, above —, then the defaults in the same order. A var written at the
+    include site beats every default of the included workflow and loses against its vars. -/
+theorem C14_include_resolution (pre below : List Node) (s r : Node) (env : Path) (k : String) :
+    lookup (consolidated (pathOf (pre ++ s :: r :: below) env)) k =
+      orElse (get (uChain (pathOf (pre ++ s :: r :: below) env)) k)
+        (orElse (orElse (get (vChain (pathOf below [])) k) (orElse (lookup r.own.vars k)
+            (orElse (lookup s.own.vars k) (get (vChain (pathOf pre env)) k))))
+          (orElse (get (dChain (pathOf below [])) k) (orElse (lookup r.own.defaults k)
+            (orElse (lookup s.own.defaults k) (get (dChain (pathOf pre env)) k))))) := by
+  obtain ⟨hd, hv, _⟩ := C14_include_root_over_site pre below s r env k
+  rw [lookup_consolidated]
+  simp only [ranked, get_append, hd, hv, orElse_assoc]
+
+/-- ITERATION VARIABLE BELOW AN INSTANCE (any kind of template, include sites included): at a role whose
+    chain passes through an instance generated for `var = val`, `var` resolves to: a user var of any
+    level, else a var of a role NEARER than the instance, else `val` — no var or default of the
+    instance's ancestors, of the environment, of the template itself is consulted. -/
+theorem C14_iter_var_seen_below (c : List Node) (env : Path) (i : Nat) (hi : i < c.length) (n : Node) (var val : String)
+    (hc : c[i] = withIter n var val) :
+    lookup (consolidated (pathOf c env)) var =
+      orElse (get (uChain (pathOf c env)) var) (orElse (get (vChain (pathOf (c.drop (i + 1)) [])) var) (some val)) := by
+  rw [lookup_consolidated]
+  simp only [ranked, get_append, get_vChain_withIter c env i hi n var val hc, orElse_assoc]
+  cases get (uChain (pathOf c env)) var <;> cases get (vChain (pathOf (List.drop (i + 1) c) [])) var <;> rfl
+
+/-- … so where nothing nearer and no user var defines it, every role below the instance sees the
+    instance's own value: two instances with different values never resolve it alike. -/
+theorem C14_iter_var_unshadowed (c : List Node) (env : Path) (i : Nat) (hi : i < c.length) (n : Node) (var val : String)
+    (hc : c[i] = withIter n var val) (hu : get (uChain (pathOf c env)) var = none)
+    (hv : get (vChain (pathOf (c.drop (i + 1)) [])) var = none) :
+    lookup (consolidated (pathOf c env)) var = some val := by
+  rw [C14_iter_var_seen_below c env i hi n var val hc, hu, hv]; rfl
+
+/-- ITERATED INCLUDE ROLE: the `j`-th value of the range yields the `j`-th sibling; every role of that
+    sibling — the include role `j :: 0`, the roles of the included workflow `j :: 0 :: more` — has the
+    SITE carrying `var = vals[j]` in its chain right above the included root, over the same expanded
+    sub-workflow for all instances. -/
+theorem C14_iterated_include_instance (var : String) (vals : List String) (site root : Node) (kids next : TForest)
+    (j : Nat) (hj : j < vals.length) (more : Addr) :
+    chainAt (expand (.iter var vals site (.role root kids .nil) next)) (j :: 0 :: more) =
+      (chainAt (.role root (expand kids) .nil) (0 :: more)).map (withIter site var vals[j] :: ·) := by
+  rw [C14_iter_instances_are_siblings var vals site (.role root kids .nil) next j hj (0 :: more)]
+  simp only [expand, chainAt]
+
+/-- … hence inside the `j`-th instance of an iterated include role, at the include role and at every
+    role of the included workflow, the iteration variable resolves to `vals[j]` unless a user var or a
+    var of the included workflow itself (its root or a role between the root and the observer) defines
+    it — whatever the including workflow, its ancestors or the environment define for that name. -/
+theorem C14_iterated_include_sees_own_value (var : String) (vals : List String) (site root : Node) (kids next : TForest)
+    (j : Nat) (hj : j < vals.length) (more : Addr) (c : List Node) (env : Path)
+    (hc : chainAt (expand (.iter var vals site (.role root kids .nil) next)) (j :: 0 :: more) = some c) :
+    lookup (consolidated (pathOf c env)) var =
+      orElse (get (uChain (pathOf c env)) var) (orElse (get (vChain (pathOf (c.drop 1) [])) var) (some vals[j])) := by
+  rw [C14_iterated_include_instance var vals site root kids next j hj more] at hc
+  cases hin : chainAt (.role root (expand kids) .nil) (0 :: more) with
+  | none => simp [hin] at hc
+  | some c' =>
+    simp only [hin, Option.map_some, Option.some.injEq] at hc
+    subst hc
+    exact C14_iter_var_seen_below _ env 0 (by simp) site var vals[j] rfl
+
+/-- The template as the rule reads it, loaded as the code loads it, observed after ANY history of
+    runtime writes satisfies `Spec.loadedOk` — all templates (iterators, include roles, iterated and
+    nested include roles), all histories, all environments. -/
+theorem C14_loaded_meets_spec (keys : List String) (special : KV) (tf : TForest) (ws : List Write)
+    (env : Path) (tmpl : Option (KV × KV)) (hclear : ∀ k ∈ keys, lookup special k = none) :
+    loadedOk keys tf ws env tmpl ((rolesAfter (load codeLoad tf) ws env tmpl).map (modelObs keys special)) = true := by
+  rw [C14_load_is_expand]
+  exact C14_history_writesOk_code keys special (expand tf) ws env tmpl hclear
+
+/-- WHY the include role must publish its Locals BEFORE it replaces its maps: the workflow `root`
+    (vars `slot = root-slot`) with `sub-{{ slot }}` for slot in 1, 2 including a sub-workflow with one call
+    role `leaf`. As the code loads it, `leaf` of instance j sees `slot = j`. With the loop left to
+    aggregatorRole.ProcessTemplates (`lateLoad`: it then iterates the LOADED root's empty Locals) both
+    leaves — and both include roles — see the root's `root-slot`: a farther definition wins, and the
+    instances are indistinguishable. Iterators over a plain aggregator are unaffected. -/
+theorem C14_include_must_publish_before_swap :
+    let lv (v : KV) : Level := { defaults := [], vars := v, userVars := [] }
+    let plain (v : KV) : Node := { own := lv v, locals := [], task := false }
+    let leaf : TForest := .role (plain []) .nil .nil
+    let tf : TForest := .role (plain [("slot", "root-slot")])
+      (.iter "slot" ["1", "2"] { own := lv [], locals := [], task := false, site := true } (.role (plain []) leaf .nil)
+        (.iter "slot" ["1", "2"] (plain []) leaf .nil)) .nil
+    let see (cfg : LoadCfg) (a : Addr) : Option String :=
+      ((chainAt (load cfg tf) a).map fun c => lookup (consolidated (pathOf c [])) "slot").join
+    (preorder (load codeLoad tf) 0 []).length = 9 ∧
+    [[0, 0, 0], [0, 0, 0, 0], [0, 1, 0], [0, 1, 0, 0]].map (see codeLoad) = [some "1", some "1", some "2", some "2"] ∧
+    [[0, 0, 0], [0, 0, 0, 0], [0, 1, 0], [0, 1, 0, 0]].map (see lateLoad)
+      = [some "root-slot", some "root-slot", some "root-slot", some "root-slot"] ∧
+    [[0, 2, 0], [0, 3, 0]].map (see lateLoad) = [some "1", some "2"] := by
+  decide
+
 /-! ## what the environment itself writes on its transitions
 
   `envWriteTable` = every write of core/environment to the maps its workflow resolves against, as rows
@@ -763,4 +926,28 @@ example :
     see [0, 0, 0] "run" = some "42" ∧ see [0, 1, 0] "run" = some "42" ∧ see [0] "run" = some "42" ∧
     see [0, 0, 1] "it" = some "a" ∧ see [0, 1, 1] "it" = some "b" ∧
     untouched ws [0, 1, 0] = false ∧ untouched (ws.take 2) [0, 1, 0] = true := by
+  decide
+
+/-- An include role with opinions on both sides: the including workflow `root` (default `detector = ITS`)
+    has `dpl` = `include: sub` with vars `detector = TPC` and defaults `n = 4` written at the include
+    site, and a plain task role next to it; `sub`'s root declares defaults `detector = MFT`, `n = 1` and
+    has one task role. Inside the included workflow the site's VAR beats the included root's DEFAULT
+    (kind first), the included root's default beats the site's default (nearest first); the neighbour
+    sees neither. `SetRuntimeVar(detector, EMC)` on the include role (address `[0,0,0]`: the site is a
+    step, not a role) reaches the included workflow only. The tree has 4 roles, the site is none. -/
+example :
+    let nd (d v : KV) (task site : Bool) : Node :=
+      { own := { defaults := d, vars := v, userVars := [] }, locals := [], task := task, site := site }
+    let tf : TForest :=
+      .role (nd [("detector", "ITS")] [] false false)
+        (.role (nd [("n", "4")] [("detector", "TPC")] false true)
+          (.role (nd [("detector", "MFT"), ("n", "1")] [] false false) (.role (nd [] [] true false) .nil .nil) .nil)
+          (.role (nd [] [] true false) .nil .nil)) .nil
+    let see (ws : List Write) (a : Addr) (k : String) : Option String :=
+      ((chainAt (applyWrites (load codeLoad tf) ws) a).map fun c => lookup (consolidated (pathOf c [])) k).join
+    let w : List Write := [⟨[0, 0, 0], false, .set "detector" "EMC"⟩]
+    preorder (load codeLoad tf) 0 [] = [[0], [0, 0, 0], [0, 0, 0, 0], [0, 1]] ∧
+    see [] [0, 0, 0, 0] "detector" = some "TPC" ∧ see [] [0, 0, 0] "detector" = some "TPC" ∧
+    see [] [0, 0, 0, 0] "n" = some "1" ∧ see [] [0, 1] "detector" = some "ITS" ∧ see [] [0, 1] "n" = none ∧
+    see w [0, 0, 0, 0] "detector" = some "EMC" ∧ see w [0, 1] "detector" = some "ITS" ∧ see w [0] "detector" = some "ITS" := by
   decide
